@@ -158,7 +158,7 @@ package motion
 //@ pred (mp *MotionProcessor) recRun() := mp.triggered == mp.run && mp.run >= 0
 
 //@ pred (mp *MotionProcessor) PInvC() :=
-//@   mp.constantRecording ==> (mp.constantRecorder.open == (mp.crFrames > 0)) && mp.constantRecorder.inFile == mp.crFrames && 0 <= mp.crFrames && mp.crFrames <= mp.maxFrames
+//@   mp.constantRecording ==> (mp.constantRecorder.open == (mp.crFrames > 0)) && (mp.constantRecorder.open ==> mp.constantRecorder.inFile == mp.crFrames) && 0 <= mp.crFrames && mp.crFrames <= mp.maxFrames
 
 //@ pred (mp *MotionProcessor) PInvS() :=
 //@   mp.SnapshotRecording == mp.snapshotRecorder.open && 0 <= mp.snapshotFrames
